@@ -114,6 +114,10 @@ type c10Case struct {
 	resend [][]string
 	// the interval function cancels the request's context when called with this attempt number (0: never)
 	ivx int
+	// the lane can observe the dump / trace of the returned response ("1") or not ("-": scripted transport)
+	obsDump, obsTrace string
+	// the response body cannot be observed: a HEAD request answered by a real server
+	noBodyObs bool
 	// … not the function itself: another goroutine, while the wait that follows is in progress
 	// (same observable behaviour: the model line is the same)
 	ivxWait bool
@@ -170,6 +174,13 @@ func c10Toks(l []string) string {
 		return "-"
 	}
 	return strings.Join(l, ",")
+}
+
+func c10Obs(v string) string {
+	if v == "1" {
+		return "1"
+	}
+	return "-"
 }
 
 func c10JSON(v string) string { return `{"k":"` + v + `"}` }
@@ -231,7 +242,7 @@ func (tc *c10Case) line(lane, mask string, obs []int64) string {
 		c10Pairs(tc.cCookies), c10Multi(tc.cHeaders), c10Multi(tc.cForm), c10Multi(tc.cQuery), b2(tc.allowGet),
 		verifh.Hex(tc.method), urlT, c10Pairs(tc.cookies), c10Multi(tc.headers), c10Multi(tc.form),
 		c10Pairs(tc.ordered), c10Multi(tc.query), b2(tc.multipart), files, body, tc.resendTok(), ivx,
-		c10Pairs(rawQ), c10Pairs(tc.pathParams), c10Pairs(tc.cPathParams), verifh.Hex(tc.baseURL), verifh.Hex(tc.scheme), c10Toks(sets)}, " ")
+		c10Pairs(rawQ), c10Pairs(tc.pathParams), c10Pairs(tc.cPathParams), verifh.Hex(tc.baseURL), verifh.Hex(tc.scheme), c10Toks(sets), c10Obs(tc.obsDump), c10Obs(tc.obsTrace), map[bool]string{true: "-", false: "1"}[tc.noBodyObs]}, " ")
 }
 
 // urlTemplate splits the RawURL of the case into what the model is given: how it starts, the path
@@ -396,6 +407,10 @@ type c10Run struct {
 	lastXAtt    int   // X-Attempt of the returned response (-1: no HTTP response)
 	mutated     bool  // a hook with a non-noop action ran
 	runaway     bool
+	kept        string       // K token: what the returned response still holds
+	keptBad     string       // oracle: an observable of the returned response that is not the last attempt's
+	sendIter0   int          // x.iter when the Do call in progress began
+	lastTrace   *clientTrace // e2e: the trace object of the last attempt
 	wrappedRO   *retryOption // the retry option whose interval function is currently observed
 	sendStart   []int        // index into log where each Do call begins
 	sendStartRA []int        // RetryAttempt when each Do call begins
@@ -894,14 +909,9 @@ func (x *c10Run) build(dir string) (*Client, *Request) {
 			return nil
 		})
 	}
-	hasB := false
-	for _, o := range tc.script {
-		hasB = hasB || o[0] == 'b'
-	}
-	if hasB {
-		r.SetSuccessResult(&struct{}{})
-		r.SetErrorResult(&struct{}{})
-	}
+	// result targets: Response.result / Response.error are bound on every attempt with a result state
+	r.SetSuccessResult(&struct{}{})
+	r.SetErrorResult(&struct{}{})
 	x.applyOps(tc.reqOps, nil, r)
 	switch tc.sibKind {
 	case 1:
@@ -934,7 +944,7 @@ func (x *c10Run) exec(dir string) {
 	for si := 0; si <= len(x.tc.resend); si++ {
 		if si > 0 {
 			// the same Request object again: a fresh context, the caller's setter calls, Do
-			x.log = append(x.log, x.final)
+			x.log = append(x.log, x.final, x.kept)
 			x.ctx = newC10Ctx()
 			r.SetContext(x.ctx)
 			x.applyOps(x.tc.resend[si-1], nil, r)
@@ -947,6 +957,7 @@ func (x *c10Run) exec(dir string) {
 		x.sendStart = append(x.sendStart, len(x.log))
 		x.sendStartRA = append(x.sendStartRA, r.RetryAttempt)
 		x.sendWires = append(x.sendWires, len(x.wires))
+		x.sendIter0 = x.iter
 		if x.execOne(r) {
 			break
 		}
@@ -966,6 +977,7 @@ func (x *c10Run) execOne(r *Request) bool {
 			resp = r.Do()
 		}
 	})
+	x.kept = "K-"
 	switch {
 	case panicked:
 		x.final = "panic"
@@ -974,6 +986,7 @@ func (x *c10Run) execOne(r *Request) bool {
 	case resp.Err == errRetryableWithUnReplayableBody:
 		x.final = "refused"
 	default:
+		x.observeKept(resp)
 		rs := "-/nohttp"
 		if resp.Response != nil {
 			rs = resp.Header.Get("X-Attempt") + "/" + strconv.Itoa(resp.StatusCode)
@@ -997,7 +1010,73 @@ func (x *c10Run) execOne(r *Request) bool {
 }
 
 func (x *c10Run) answer() string {
-	return strings.Join(append(append([]string{}, x.log...), x.final), " ")
+	return strings.Join(append(append([]string{}, x.log...), x.final, x.kept), " ")
+}
+
+// observeKept looks at the response Do handed back the way a caller does: its body
+// (Bytes/String), its bound result / error result, and — where the lane can see them — the dump
+// and the trace reachable through it.  All of it must still be what the LAST attempt buffered
+// (K token: 1 kept, 0 wiped, - nothing to observe, ? something else).
+func (x *c10Run) observeKept(resp *Response) {
+	src := ""
+	if passes := x.iter - x.sendIter0; passes >= 1 {
+		src = x.outcome(x.iter - 1)
+		if src == "e" { // a request middleware failed: resp is what the previous pass left
+			src = ""
+			if passes >= 2 && resp.Response != nil {
+				src = x.outcome(x.iter - 2)
+			}
+		}
+	}
+	if resp.Response == nil {
+		src = ""
+	}
+	b, rs := "-", "-"
+	if src != "" && (src[0] == 's' || src[0] == 'b' || src[0] == 'L') {
+		exp := "ok"
+		if x.tc.noBodyObs {
+			exp = ""
+		}
+		if src[0] == 'b' {
+			exp = "bad:" + resp.Header.Get("X-Attempt")
+		}
+		switch got := string(resp.body); {
+		case x.tc.noBodyObs:
+		case got == exp && resp.String() == exp:
+			b = "1"
+		case got == "":
+			b = "0"
+		default:
+			b = "?"
+		}
+		if code, _ := strconv.Atoi(src[1:]); src[0] != 'b' && ((code >= 200 && code < 300) || code >= 400) {
+			rs = "0"
+			if (resp.result != nil && resp.SuccessResult() != nil) || (resp.error != nil && resp.ErrorResult() != nil) {
+				rs = "1"
+			}
+		}
+	}
+	d, t := "-", "-"
+	if x.tc.obsDump == "1" {
+		switch n := strings.Count(resp.Dump(), " HTTP/1.1\r\n"); {
+		case n == 1:
+			d = "1"
+		case resp.Dump() == "":
+			d = "0"
+		default:
+			d = "?"
+		}
+	}
+	if x.tc.obsTrace == "1" {
+		t = "0"
+		if x.lastTrace != nil && resp.Request.trace == x.lastTrace {
+			t = "1"
+		}
+	}
+	x.kept = "K" + b + rs + d + t
+	if last := x.outcome(x.iter - 1); last != "e" && strings.ContainsAny(x.kept, "0?") {
+		x.keptBad = fmt.Sprintf("the response finally returned is not the last attempt's any more: %s (body %q, result %v/%v) after outcome %s", x.kept, string(resp.body), resp.result != nil, resp.error != nil, last)
+	}
 }
 
 // c10JarNames: the cookie names the script's responses set (they live in the jar, not in the request).
@@ -1101,6 +1180,9 @@ func (x *c10Run) checkJar() (bool, string) {
 func (x *c10Run) oracle() (ok bool, why string) {
 	tc := x.tc
 	fail := func(s string) (bool, string) { return false, s }
+	if x.keptBad != "" {
+		return fail(x.keptBad)
+	}
 	if tc.dynamic() {
 		return x.oracleDyn()
 	}
@@ -1268,7 +1350,7 @@ func (x *c10Run) oracleDyn() (bool, string) {
 	for si, start := range x.sendStart {
 		end, final, wEnd := len(x.log), x.final, len(x.wires)
 		if si+1 < len(x.sendStart) {
-			end, final, wEnd = x.sendStart[si+1]-1, x.log[x.sendStart[si+1]-1], x.sendWires[si+1]
+			end, final, wEnd = x.sendStart[si+1]-2, x.log[x.sendStart[si+1]-2], x.sendWires[si+1] // … final, K token
 		}
 		if si > 0 {
 			for _, op := range tc.resend[si-1] {
@@ -1366,7 +1448,7 @@ func (x *c10Run) wires0() string {
 
 // ---------------------------------------------------------------------------- classification
 
-var c10Bits = []string{"c10-cookie-dup", "c10-form-dup", "c10-afterresponse-overwrites-err", "c10-nil-resp-retry", "c10-filereader-not-rewound", "c10-unreplayable-retried-in-flight"}
+var c10Bits = []string{"c10-cookie-dup", "c10-form-dup", "c10-afterresponse-overwrites-err", "c10-nil-resp-retry", "c10-filereader-not-rewound", "c10-unreplayable-retried-in-flight", "c10-wiped-before-wait"}
 
 type c10Rec struct {
 	tc       *c10Case
@@ -1423,7 +1505,7 @@ func (tc *c10Case) relevantBits() []int {
 func c10Finish(s *verifh.Session, recs []c10Rec) {
 	lines := make([]string, len(recs))
 	for i, r := range recs {
-		lines[i] = r.tc.line("c10run", "111111", r.obs)
+		lines[i] = r.tc.line("c10run", "1111111", r.obs)
 	}
 	class := make([]string, len(recs))
 	var ans []string
@@ -1443,7 +1525,7 @@ func c10Finish(s *verifh.Session, recs []c10Rec) {
 					continue
 				}
 				for sub := 1; sub < 1<<len(r.relevant); sub++ {
-					m := []byte("111111")
+					m := []byte("1111111")
 					off := 0
 					for j, b := range r.relevant {
 						if sub&(1<<j) != 0 {
@@ -1801,7 +1883,7 @@ func TestVerif_C10_loop(t *testing.T) {
 	reached := map[string]int{}
 	for _, rc := range recs {
 		toks := strings.Split(rc.impl, " ")
-		fin := toks[len(toks)-1]
+		fin := toks[len(toks)-2] // the last token is the K token
 		switch {
 		case fin == "panic":
 			s.Count("final:panic")
@@ -2269,7 +2351,7 @@ func TestVerif_C10_wire(t *testing.T) {
 			nW = 3
 		}
 		count(fmt.Sprintf("attempts:%d%s", nW, map[bool]string{true: "+", false: ""}[nW == 3]))
-		if toks[len(toks)-1] == "refused" {
+		if toks[len(toks)-2] == "refused" {
 			count("refused")
 		}
 		if nW >= 2 {
@@ -2656,6 +2738,12 @@ func TestVerif_C10_ctxdone(t *testing.T) {
 							ok, why = false, fmt.Sprintf("%d round trips begun after the context was done (%d in all, %d hook calls, RetryAttempt=%d, MaxRetries=%d)", rt.afterDone, rt.started, hooks, resp.Request.RetryAttempt, n)
 						case resp == nil || resp.Err == nil || !(errors.Is(resp.Err, context.DeadlineExceeded) || errors.Is(resp.Err, context.Canceled)):
 							ok, why = false, fmt.Sprintf("returned error is not the context's: %v", resp.Err)
+						case mode == 2 && (resp.Response == nil || resp.StatusCode != 503 || string(resp.body) != "ok" || resp.String() != "ok"):
+							// the wait was interrupted: the 503 just received goes back to the caller, complete
+							ok, why = false, fmt.Sprintf("the response returned after the interrupted wait is not the complete last attempt's: status %v body %q", resp.Response != nil, string(resp.body))
+						}
+						if mode == 2 && ok {
+							s.Count("returned-complete-after-interrupted-wait")
 						}
 						s.Count("mode:" + strconv.Itoa(mode))
 						s.Count("interval:" + v.name)
